@@ -163,6 +163,22 @@ def form_feeds_between_tokens(text, rng):
     return derive.replace_spans(text, spans) if spans else None
 
 
+def continuation_then_blank_line(text, rng):
+    """End a logical line with a backslash join onto an empty line (`x = 1 \\` + empty line): the joined line is empty,
+    so the statement ends there."""
+    toks, P = _toks(text)
+    if not toks:
+        return None
+    spans = []
+    prev = None
+    for t in toks:
+        if t.type == T.NEWLINE and t.string == "\n" and prev is not None and prev.type != T.COMMENT and rng.random() < .2:
+            i = P.idx(t.start)
+            spans.append((i, i, rng.choice([" \\\n", "\\\n", " \\\n \\\n"])))
+        prev = t
+    return derive.replace_spans(text, spans) if spans else None
+
+
 def bom(text, rng):
     return "﻿" + text if not text.startswith("﻿") else None
 
@@ -335,7 +351,16 @@ def newline_style(text, rng, style=None):
         return text.replace("\n", "\r\n")
     if style == "cr":
         return text.replace("\n", "\r")
-    return "".join(ch if ch != "\n" else rng.choice(["\n", "\r\n", "\r"]) for ch in text)
+    out = []
+    for ch in text:
+        if ch != "\n":
+            out.append(ch)
+            continue
+        nl = rng.choice(["\n", "\r\n", "\r"])
+        if nl == "\n" and out and out[-1] == "\r":
+            nl = "\r\n"   # a lone CR followed by LF would read as one CRLF: two line breaks must stay two
+        out.append(nl)
+    return "".join(out)
 
 
 REWRITES = {
@@ -349,6 +374,7 @@ REWRITES = {
     "bracket_newlines": bracket_newlines,
     "token_spacing": spaces_between_tokens,
     "tight_spacing": tight_spacing,
+    "continuation_then_blank_line": continuation_then_blank_line,
     "redundant_parens": redundant_parens,
     "bom": bom,
     "eof_whitespace": eof_whitespace,
@@ -356,7 +382,7 @@ REWRITES = {
 }
 # rewrites that need an LF-only, form-feed-free input come first in a composition
 ORDER = ["redundant_parens", "reindent", "backslash_joins", "bracket_newlines", "token_spacing", "tight_spacing", "trailing_blanks", "blank_comment_lines",
-         "eol_comments", "form_feeds_between_tokens", "form_feeds", "eof_whitespace", "bom", "newline_style"]
+         "eol_comments", "continuation_then_blank_line", "form_feeds_between_tokens", "form_feeds", "eof_whitespace", "bom", "newline_style"]
 
 
 def compose(text, rng, k=None, names=None):
